@@ -73,16 +73,17 @@ def check_static(lin, n: int, ex, R: frozenset, what: str, state_ret=None) -> st
 
 
 def unit(u) -> Stats:
-    n, vs, comp, gap_name, budget, tag, max_depth = u
+    n, vs, comp, gap_name, budget, tag, max_depth = u[:7]
+    known_extra = tuple(u[7]) if len(u) > 7 else ()
     games = []
     for v in (vs if isinstance(vs, list) else [vs]):
         if isinstance(v, tuple) and v and v[0] == "GEN":
             v = gens.draw(v[1], v[2], v[3])
         games.append(tuple(v))
     st = Stats()
-    doc0 = {"n": n, "games": [list(g) for g in games], "computer": comp, "gap": gap_name, "budget": budget, "tag": tag}
+    doc0 = {"n": n, "games": [list(g) for g in games], "computer": comp, "gap": gap_name, "budget": budget, "tag": tag, "known_extra": list(known_extra)}
     script = envs.Script(games)
-    lin = envs.make_env(n, script, comp, gaps.registry()[gap_name], budget, linear=True)
+    lin = envs.make_env(n, script, comp, gaps.registry()[gap_name], budget, linear=True, known_extra=known_extra)
     ex = envs.explorable(lin.icg_gym)
     # episodes: the env object lives on; every episode starts with reset() and is explored completely; the object that enters the
     # next episode is one that has just finished an episode (state carried across resets travels along)
@@ -226,6 +227,17 @@ def run(run: Run) -> None:
     us.append((7, [dict(A.larger_n_samples(7))["path-shift"]], "superadditive_cached", "l1_norm", 2, "exact7", 1))
     big3 = A.shifted(g3[(7 * (seed + 1)) % len(g3)], tuple(A.BIG * x for x in (1, -1, 2)))
     us.append((3, [big3, A.scaled(g3[(19 * (seed + 2)) % len(g3)], A.TINY)], "superadditive", "l1_norm", None, "exact3-scales", None))
+    # sizes of wildly different magnitude (pairs ~ 2^40, larger coalitions ~ 1; singletons 0 and v(N) = 1, so the observation carries the raw
+    # values): a per-size sum must not inherit the rounding of the other sizes
+    for n_ in (4, 5):
+        gm = tuple(0.0 if A.popcount(s) <= 1 else 1.0 if s == (1 << n_) - 1 else float(2 ** 40) * (1 + (s % 5) / 8 + 1 / 3) if A.popcount(s) == 2
+                   else 1 / 3 + (s % 7) / 16 for s in range(1 << n_))
+        us.append((n_, [gm], "superadditive_cached", "l1_norm", None, f"mixed-magnitude{n_}", None if n_ == 4 else 2))
+    # environments whose initial knowledge contains EVERY coalition of one size (that size is never offered; its neighbours are)
+    for n_, sizes, dep in ((5, (3,), 3), (5, (2,), 3), (6, (3, 4), 2), (4, (2,), None)):
+        extra = tuple(s for s in A.explorable_ids(n_) if A.popcount(s) in sizes)
+        gk = dict(A.larger_n_samples(n_))["path-shift"] if n_ >= 5 else A.shifted(reps[(5 * (seed + 1)) % len(reps)], A.ADD4)
+        us.append((n_, [gk], "superadditive_cached", "l1_norm", None, f"exact{n_}-sizes{''.join(map(str, sizes))}-known", dep, extra))
     run.rule = ("BFS over the real ICG_Gym_Linear with numpy.random.choice owned by a choice controller: transitions are (allowed size k, candidate j) for "
                 "EVERY candidate, over several episodes (reset between them, differing scripted hidden games incl. non-superadditive ones) on one "
                 "long-lived env; n=3,4 all states until done, n=5 depth <= 3 (thorough 4), n=6 depth <= 2; after reset and after every step: mask per "
@@ -239,6 +251,6 @@ def run(run: Run) -> None:
 def replay(doc: dict):
     games = [tuple(g) for g in doc.get("games", [doc.get("values")])]
     st = unit((doc["n"], games, doc["computer"], doc["gap"], doc.get("budget"), doc.get("tag", "replay"),
-               None if doc["n"] <= 4 else 3))
+               None if doc["n"] <= 4 else 3, tuple(doc.get("known_extra", ()))))
     msgs = [v["message"] for v in st.violations]
     return bool(msgs), "; ".join(msgs[:3]) if msgs else "linear env is a faithful abstraction on this configuration"
